@@ -36,6 +36,10 @@ class Injected(Exception):
     pass
 
 
+class Interrupted(BaseException):
+    """User code can also leave through a BaseException (KeyboardInterrupt, SystemExit, a test framework's skip, ...)."""
+
+
 def final_line(e):
     return str(e).strip().split("\n")[-1].strip()
 
@@ -70,6 +74,38 @@ def fresh_bytes(spec, tops):
         except Exception as e:
             out[k] = None
     return out
+
+
+def parent_of(spec, offending):
+    """(parent module index, instance name) of some plain instance of module `offending` reachable from the top, or None."""
+    for k in sorted(c07_reach(spec, spec["top"])):
+        for inst in spec["modules"][k]["insts"]:
+            if inst["of"] == ["mod", offending] and inst.get("kind", "inst") == "inst":
+                return k, inst["name"]
+    return None
+
+
+def edit_parent(h, b, spec, pk, iname):
+    """The designer's edit after a failure: the instance of the offending module is replaced - under the same name -
+    by an array of a healthy leaf cell on fresh nets (something an early pass has to flatten)."""
+    pm = b.module(pk)
+    Good = h.ExternalModule(name="GoodLeaf", port_list=[h.Input(name="a"), h.Output(name="z")], domain="verif")
+    sa = pm.add(h.Signal(name="edit_a"))
+    sz = pm.add(h.Signal(name="edit_z", width=2))
+    setattr(pm, iname, 2 * Good()(a=sa, z=sz))
+    return pm
+
+
+def edit_parent_fresh(spec, pk, iname):
+    env.setup_paths()
+    import hdl21 as h
+    b = Builder(spec)
+    top = b.module(spec["top"])
+    try:
+        edit_parent(h, b, spec, pk, iname)
+        return h.to_proto(top).SerializeToString(deterministic=True).hex()
+    except Exception as e:
+        return None
 
 
 def new_parent(h, b, spec, clean):
@@ -201,6 +237,8 @@ def run_scenario(spec, fault, cont):
             def body(params: GP) -> h.Module:
                 gen_counts["n"] = gen_counts.get("n", 0) + 1
                 if gen_counts["n"] == 1:
+                    if fault["where"].endswith("_base"):
+                        raise Interrupted("generator body interrupted on its first call")
                     raise Injected("generator body raised on its first call")
                 m = h.Module()
                 m.add(h.Signal(name="s", width=2))
@@ -226,9 +264,9 @@ def run_scenario(spec, fault, cont):
                 G2 = h.generator(body2)
                 fn = lambda: 1
                 first = lambda: G2(f=fn)
-            elif fault["where"] == "direct":
+            elif fault["where"] in ("direct", "direct_base"):
                 first = lambda: G(k=1)
-            elif fault["where"] == "nested":
+            elif fault["where"] in ("nested", "nested_base"):
                 def outer(params: GP) -> h.Module:
                     m = h.Module()
                     m.add(G(k=1)(), name="inner")
@@ -252,6 +290,10 @@ def run_scenario(spec, fault, cont):
     except Exception as e:
         out["first"] = "raised"
         out["first_err"] = type(e).__name__
+        out["first_line"] = final_line(e)
+    except Interrupted as e:
+        out["first"] = "raised"
+        out["first_err"] = "Interrupted"
         out["first_line"] = final_line(e)
     if out["first"] != "raised":
         return out
@@ -286,6 +328,18 @@ def run_scenario(spec, fault, cont):
             out["clean"] = clean
             out["bytes"] = export(new_parent(h, b, spec, clean)) if clean else None
             out["cont"] = "returned"
+        elif cont == "edit_parent":
+            po = parent_of(spec, offending) if offending is not None else None
+            if po is None:
+                out["cont"] = "skipped"
+                return out
+            out["edited"] = list(po)
+            edit_parent(h, b, spec, po[0], po[1])
+            if kind in ("extra_pass", "mid_rewrite"):
+                state["armed"] = False
+                E.reset_elaborator()
+            out["bytes"] = export(b.module(top))
+            out["cont"] = "returned"
         elif cont == "parent_of_offender":
             par_ = h.Module(name="NewParent")
             off = b.module(offending if offending is not None else top)
@@ -318,7 +372,7 @@ def faults_for(spec):
         for m in mods:
             for k in (1, 2, 3):
                 out.append({"kind": "mid_rewrite", "pass": pname, "module": m, "k": k})
-    for where in ("direct", "nested", "in_module", "naming"):
+    for where in ("direct", "nested", "in_module", "naming", "direct_base", "nested_base"):
         out.append({"kind": "gen_raises", "where": where})
     return out
 
@@ -376,6 +430,13 @@ def judge(spec, fault, cont, r, fresh, unrel):
                 fails.append(("exports_faulty_module:" + tag, "a new parent containing the ill-formed module was exported"))
         elif circ and not orig_circ:
             fails.append(("spurious_circular_dependency:" + tag, "later call reports %r, the original error was %r" % (r.get("cont_line"), r.get("first_line"))))
+    elif cont == "edit_parent":
+        if r.get("cont") == "returned":
+            ref = fresh.get("edit_parent")
+            if ref is not None and r.get("bytes") != ref:
+                fails.append(("edited_parent_exports_wrong_package:" + tag, "after %s the parent was edited to no longer instantiate the failed module and exported: the package differs from a fresh build of the edited design" % r.get("first_line")))
+        elif r.get("cont") == "raised" and circ and not orig_circ:
+            fails.append(("spurious_circular_dependency:" + tag, "later call reports %r, the original error was %r" % (r.get("cont_line"), r.get("first_line"))))
     elif cont == "unrelated":
         if r.get("cont") != "returned":
             fails.append(("unrelated_design_fails:" + tag, "after a failure elsewhere, an unrelated design raised: %s" % r.get("cont_line")))
@@ -408,7 +469,7 @@ def parent_of_offender_fresh(spec, offending):
         return None
 
 
-CONTS = ["retry", "repair_retry", "unrelated", "share_clean", "parent_of_offender"]
+CONTS = ["retry", "repair_retry", "unrelated", "share_clean", "parent_of_offender", "edit_parent"]
 
 
 def shard(idx, n, tier):
@@ -444,7 +505,7 @@ def shard(idx, n, tier):
         scen = [(f, c) for f in faults_for(sp) for c in CONTS
                 if not (f["kind"] == "gen_raises" and c != "retry")]
         for cls, (site, ms) in design_faults(sp).items():
-            for c in ("retry", "unrelated", "share_clean"):
+            for c in ("retry", "unrelated", "share_clean", "edit_parent"):
                 scen.append(({"kind": "design_fault", "cls": cls, "site": site, "spec": ms}, c))
         for fault, cont in scen:
             use = fault.get("spec", sp)
@@ -466,6 +527,14 @@ def shard(idx, n, tier):
                 fr = par.pristine(fresh_bytes, use, sorted(c07_reach(use, use["top"]))) if cont == "share_clean" else fr
                 if par.is_exc(fr):
                     continue
+            if cont == "edit_parent":
+                if r.get("cont") == "skipped" or not r.get("edited"):
+                    res.notes["edit_parent_not_applicable"] += 1
+                    continue
+                key = ("edit", id(use), tuple(r["edited"]))
+                if key not in np_cache:
+                    np_cache[key] = par.pristine(edit_parent_fresh, use, r["edited"][0], r["edited"][1])
+                fr = dict(fr); fr["edit_parent"] = np_cache[key]
             if cont == "share_clean" and r.get("clean"):
                 key = (id(use), tuple(r["clean"]))
                 if key not in np_cache:
@@ -499,6 +568,8 @@ def replay(case):
         raise RuntimeError(r[2])
     if cont == "share_clean" and r.get("clean"):
         fresh["new_parent"] = par.in_child(new_parent_fresh, spec, r["clean"])
+    if cont == "edit_parent" and r.get("edited"):
+        fresh["edit_parent"] = par.in_child(edit_parent_fresh, spec, r["edited"][0], r["edited"][1])
     fails, note = judge(spec, fault, cont, r, fresh, unrel)
     return fails
 
